@@ -52,9 +52,31 @@ def cfg_from_record(rec):
     cfg = RunConfig(random.Random(0))
     # knobs added after a record was written keep the library's own value when replaying it
     cfg.hashbits = 32
+    cfg.scribble = False
     for k, v in rec.items():
         setattr(cfg, k, v)
     return cfg
+
+
+def apply_hashbits(cfg):
+    """Knob: the hash of the on-disk hash tables (term dictionary, stored-field index). With only a
+    few significant bits every table is full of colliding keys, which a correct open-addressing
+    lookup must still tell apart (at 32 bits a collision needs ~10^5 keys in one segment). Whoever
+    reads an index must use the function it was written with: recovery sessions apply it too.
+    Returns what restore_hashbits() needs."""
+    from whoosh.filedb import filetables as _ft
+    saved = _ft._hash_functions
+    hb = getattr(cfg, "hashbits", 32)
+    if hb != 32:
+        mask = (1 << hb) - 1
+        orig_md5 = _ft.md5_hash
+        _ft._hash_functions = (lambda key: orig_md5(key) & mask,) + tuple(saved[1:])
+    return saved
+
+
+def restore_hashbits(saved):
+    from whoosh.filedb import filetables as _ft
+    _ft._hash_functions = saved
 
 
 class Session(object):
@@ -112,16 +134,8 @@ class Session(object):
             def _au_init(m, submatchers, doccount, boost=1.0, scored=True, partsize=ap):
                 orig_au(m, submatchers, doccount, boost=boost, scored=scored, partsize=partsize)
             _combo.ArrayUnionMatcher.__init__ = _au_init
-        # the hash of the on-disk hash tables (term dictionary, stored-field index): with only a few
-        # significant bits every table is full of colliding keys, which a correct open-addressing
-        # lookup must still tell apart (at 32 bits a collision needs ~10^5 keys in one segment)
-        from whoosh.filedb import filetables as _ft
-        self._hash_fns = _ft._hash_functions
-        hb = getattr(cfg, "hashbits", 32)
-        if hb != 32:
-            mask = (1 << hb) - 1
-            orig_md5 = _ft.md5_hash
-            _ft._hash_functions = (lambda key: orig_md5(key) & mask,) + tuple(_ft._hash_functions[1:])
+        self._hash_fns = apply_hashbits(cfg)
+        D.SCRIBBLE[0] = bool(getattr(cfg, "scribble", False))
         self.model = M.ModelIndex(cfg)
         self.stats = {}
         self.known_hits = {}
@@ -172,8 +186,7 @@ class Session(object):
             _columns.VarBytesColumn.__init__ = self._vb_init
             from whoosh.matching import combo as _combo
             _combo.ArrayUnionMatcher.__init__ = self._au_init
-            from whoosh.filedb import filetables as _ft
-            _ft._hash_functions = self._hash_fns
+            restore_hashbits(self._hash_fns)
             if self.real_dir is None:
                 seams.uninstall()
             else:
